@@ -2,6 +2,7 @@ import TakVerif.Proofs.BotComposeInv
 import TakVerif.Proofs.BotComposeEng
 import TakVerif.Props.C07_pv
 import TakVerif.Props.C20_glue
+import TakVerif.Proofs.FPATotal
 
 /-! # C07 composed: the bot loop with the REAL `Friendly` / `Taktician` as thinker and ONE engine per game
 
@@ -234,7 +235,7 @@ theorem minimax_keeps_engInv (basis : Array W) (ev : Pos → Int) (sym : Pos →
 
 theorem callOK_friendly {c : Compose.Conf} {var : Option Variant} (hw : c.who = .friendly var) (hrep : c.replay = true)
     {call : Call} (h : CallOK c call) :
-    Glue.friendlyGetMove call.fpa { color := c.bot.color, size := c.size, positions := call.positions, moves := call.moves }
+    Compose.friendlyOf c call.fpa { color := c.bot.color, size := c.size, positions := call.positions, moves := call.moves }
       call.pos call.chk = .ok (call.fpa', call.act) := by
   unfold CallOK glueOn at h
   rw [hw] at h
@@ -246,6 +247,24 @@ theorem callOK_taktician {c : Compose.Conf} {tc : TakticianCfg} (hw : c.who = .t
   rw [hw] at h
   injection h with h
   exact (Prod.mk.inj h).2.symm
+
+/-- `C20.friendly_resigns_iff_rule_rejects` for the call of either tree (`Compose.friendlyOf`: the scripts decline or
+panic; a resignation is decided before the script is asked) -/
+theorem friendlyOf_resigns_iff (c : Compose.Conf) (fpa f' : Option (Variant × Rule)) (g : GameRec) (p : Pos)
+    (o : CheckOracle) (a : Action) (h : Compose.friendlyOf c fpa g p o = .ok (f', a)) :
+    (∃ msg, a = .resign msg) ↔ ∃ var r r', fpa = some (var, r) ∧ prevCheck var r g p = .ok (r', false) := by
+  rcases Compose.friendlyOf_ok_cases c h with h1 | ⟨_, e, lim, fl, _, ha, hc, _, _⟩
+  · exact C20.friendly_resigns_iff_rule_rejects fpa f' g p o a h1
+  · subst ha
+    constructor
+    · rintro ⟨msg, hm⟩; cases hm
+    · rintro ⟨var, r, r', hf, hr⟩
+      subst hf
+      rw [fpaCheck_some, hr] at hc
+      simp only at hc
+      split at hc
+      · cases hc
+      · split at hc <;> cases hc
 
 /-- **`bot_inv_friendly`** — `PlayGame` / `ObserveGame` with the real `Friendly` (any FPA variant or none) as `Bot` and
 the alpha-beta model, created once by `NewGame`, as its searching player.  For every colour, board size 3..8, clock,
@@ -267,7 +286,7 @@ theorem bot_inv_friendly (c : Compose.Conf) (var : Option Variant) (hw : c.who =
     let s := Compose.run c (minimaxOK c.bot.basis ev sym scfg) (Compose.start c secs (Search.Eng.new g scfg)) evs
     Inv c.bot s.b ∧ EngInv c.bot.basis ev sym s.eng ∧
     (∀ rec ∈ s.b.log, ∃ call ∈ s.calls, call.pos = rec.recAt ∧
-      ∃ a, Glue.friendlyGetMove call.fpa { color := c.bot.color, size := c.size, positions := call.positions, moves := call.moves }
+      ∃ a, Compose.friendlyOf c call.fpa { color := c.bot.color, size := c.size, positions := call.positions, moves := call.moves }
             rec.recAt call.chk = .ok (call.fpa', a) ∧
         (a = .move rec.move ∨
          ∃ lim fl o eng eng', a = .think lim fl ∧ EngInv c.bot.basis ev sym eng ∧ Search.OrderOK o ∧
@@ -289,7 +308,7 @@ theorem bot_inv_friendly (c : Compose.Conf) (var : Option Variant) (hw : c.who =
     · exact .inl h
     · exact .inr ⟨lim, fl, x.1, r.eng, eng', hact, hG, x.2, hrun⟩
   · intro call hcall
-    exact C20.friendly_resigns_iff_rule_rejects _ _ _ _ _ _ (callOK_friendly hw hrep (h3 call hcall))
+    exact friendlyOf_resigns_iff c _ _ _ _ _ _ (callOK_friendly hw hrep (h3 call hcall))
 
 theorem resignWire_of_not_sends {a : Action} (h : a.sends = false) : resignWire a = [] := by
   cases a <;> first | rfl | cases h
@@ -439,6 +458,9 @@ theorem current_thinker_total (c : Compose.Conf) (var : Option Variant) (hw : c.
   unfold glueCall glueOn
   rw [hw]
   simp only [hrep, if_true]
+  suffices h : ∃ x, Glue.friendlyGetMove s.fpa (recOf c s.b) s.b.cur.pos chk = .ok x by
+    obtain ⟨x, hx⟩ := h
+    exact ⟨x, Compose.friendlyOf_of_ok c hx⟩
   apply friendly_total_of _ _ _ _ hrule
   · intro hm
     have := hlen hm
